@@ -404,13 +404,18 @@ def h4_linear(ctx, K, mirrors):
 
 
 @harness('C04', 'H5_after_edit', funcs=FUNCS + ['optiland.optic.Optic.set_index', 'optiland.optic.Optic.set_radius', 'optiland.optic.Optic.set_thickness'],
-         cases=lambda tier: [dict(op=op, at=at) for op, at in (('set_index', 1), ('set_index', 2), ('set_radius', 2), ('set_thickness', 1))],
+         cases=lambda tier: [dict(op=op, at=at) for op, at in (('set_index', 1), ('set_index', 2), ('set_radius', 2), ('set_thickness', 1))] +
+         [dict(op='set_index', at=1, stop=2), dict(op='set_radius', at=1, stop=2)],
          bounds='K=2 lens, one edit with a symbolic argument, then the cardinal points / marginal ray of the edited lens',
          doc='a lens reached through an edit has the paraxial properties of its new prescription (wiring of edits into the paraxial trace)')
-def h5_after_edit(ctx, op, at):
-    L = Lens(ctx, 2, (), 1, 'inf')
+def h5_after_edit(ctx, op, at, stop=1):
+    L = Lens(ctx, 2, (), stop, 'inf')
     o = L.build()
     n2_old = L.n[1]
+    # the lens has been analysed before the edit (stale caches of paraxial quantities would show)
+    o.paraxial.EPL()
+    o.paraxial.f2()
+    o.paraxial.XPL()
     if op == 'set_index':
         v = ctx.real('v', lo=1.0, hi=4.0)
         o.set_index(v, at)
@@ -443,3 +448,9 @@ def h5_after_edit(ctx, op, at):
         _oblige_val(ctx, f'marg_y{k + 1}', ya[k + 1], Mk[0][0] * 5.0)
         _oblige_val(ctx, f'marg_u{k + 1}', ua[k + 1], Mk[1][0] * 5.0 / a[k])
     ctx.observe('f2', px.f2())
+    if stop != 1:
+        c_, t_, nb, na = L.full()
+        Ms = L.forward(0, stop - 1, True, False)
+        _oblige_val(ctx, 'EPL', px.EPL(), Ms[0][1] * nb[0] / Ms[0][0])
+        Mx = L.forward(stop - 1, 2, False, True)
+        _oblige_val(ctx, 'XPL', px.XPL(), -Mx[0][1] * na[-1] / Mx[1][1])
